@@ -442,10 +442,21 @@ def run(check, an: Analysis):
                               (PRIOSTORE, 'SortedList', {'add', 'pop'}),
                               (FILTERSTORE, 'list', {'append', 'pop'})):
         init = an.method(cls_qn, '__init__')
-        made = [n for n in ast.walk(init.node) if isinstance(n, ast.Assign)
-                and ast.unparse(n.targets[0]) == 'self._items']
-        ok = len(made) == 1 and ast.unparse(made[0].value) in (
-            '%s()' % kind, '[]' if kind == 'list' else '%s()' % kind)
+        from .c12 import _initial_value
+        made = set()
+        for text in _initial_value(an, cls_qn, '_items')[1]:
+            # `self._Factory()` with a class attribute naming the container type
+            found = ast.parse(text, mode='eval').body if text not in ('?', '<inherited>') \
+                else None
+            if isinstance(found, ast.Call) and not found.args and not found.keywords and \
+                    isinstance(found.func, ast.Attribute) and \
+                    isinstance(found.func.value, ast.Name) and found.func.value.id == 'self':
+                attr = an.p.find_class_attr(cls_qn, found.func.attr)
+                value = attr[1] if attr else None
+                if isinstance(value, (ast.Name, ast.Attribute)):
+                    text = '%s()' % ast.unparse(value)
+            made.add(text.split('.')[-1] if text.endswith('()') else text)
+        ok = bool(made) and made <= ({'%s()' % kind} | ({'[]'} if kind == 'list' else set()))
         found = set()
         for name in ('_do_put', '_do_get'):
             callee = an.callee(cls_qn, name)
@@ -795,8 +806,9 @@ def _succeeds_with_popped(succeed_event, pop_event, fn) -> bool:
     args = succeed_event.node.args
     if len(args) != 1:
         return False
-    if args[0] is pop_event.node:
+    if rules.is_site(pop_event.node, args[0]):
         return True
     if isinstance(args[0], ast.Name):
-        return any(v is pop_event.node for v in rules.local_values(fn, args[0].id))
+        return any(v is not None and rules.is_site(pop_event.node, v)
+                   for v in rules.local_values(fn, args[0].id))
     return False
